@@ -10,9 +10,12 @@ C04 line protocol.  State: named vector stores, each with its bucket.
   foreach <name>                            ids ForEach visits (sorted) | error
   exists <name> <id>                        0|1
   search <limit> <id:dist:pass;…|->         flat.Search over this enumeration → canonical answer
+  hyb flat <weight hex32|-> <dist hex32>    the hybrid expression generated from flat.go (`(-1 * weight) * dist`, weight 1 when
+                                            absent), evaluated with hardware float32 → hex32 of the result (bit for bit)
 -/
 import SemaModel.Base.DriverUtil
 import SemaModel.C04.Model
+import SemaModel.C04.HybridGen
 namespace Sema.C04
 open Sema Sema.C08 Sema.Gen.FactsC04
 
@@ -132,6 +135,12 @@ def dstep (st : DState) (line : String) : DState × String :=
       let res := search (D := Nat) flatOp limit (fun id => (cands.find? (·.1 == id)).map (·.2.2) |>.getD false)
         (fun d => d) (cands.map fun c => (c.1, c.2.1))
       (st, canonical cands res)
+    | _, _ => bad
+  | ["hyb", "flat", w, d] =>
+    match (if w == "-" then some none else (natOfHex w).map some), natOfHex d with
+    | some w, some d =>
+      let r := (hybridGen (w.map fun b => Go.FExpr.var (BitVec.ofNat 32 b)) (Go.FExpr.var (BitVec.ofNat 32 d))).eval
+      (st, if r.isNaN then "nan" else hexOfNat 8 r.toBits.toNat)
     | _, _ => bad
   | _ => bad
 
